@@ -291,8 +291,9 @@ fn grid_vec(r: &mut Rng, dim: usize) -> Vec<i32> {
         _ => (0..dim).map(|_| r.range(0, 30) as i32 - 15).collect(),
     }
 }
-fn to_f32(v: &[i32]) -> Vec<f32> {
-    v.iter().map(|k| *k as f32 / GRID).collect()
+/// grid vector k * scale / 16 (scale 1: inside the unit box; scale 8: components up to 7.5)
+fn to_f32(v: &[i32], scale: i32) -> Vec<f32> {
+    v.iter().map(|k| (*k * scale) as f32 / GRID).collect()
 }
 
 fn sim_f64(q: &[f32], a: &[f32]) -> f64 {
@@ -320,52 +321,46 @@ fn exact_sim_equal(q: &[i32], a: &[i32], b: &[i32]) -> bool {
     da.signum() == db.signum() && da * da * nb == db * db * na
 }
 
-/// true when some comparison the cache could make on this pool depends on float rounding
-fn fragile(pool: &[Vec<i32>], near: &[Vec<f32>], thr: f32, palette: &[f32], metrics: &[u8]) -> bool {
-    let pf: Vec<Vec<f32>> = pool.iter().map(|v| to_f32(v)).collect();
-    // similarity path, grid queries
-    for (qi, q) in pf.iter().enumerate() {
-        for (ai, a) in pf.iter().enumerate() {
+/// true when some comparison the cache could make on this pool depends on float rounding.
+/// `pool`: grid vectors (all f32 sums exact); `inexact`: off-grid / large-component vectors whose
+/// f32 sums round (wide margin, no exact-tie escape).
+fn fragile(pool: &[Vec<i32>], scale: i32, inexact: &[Vec<f32>], thr: f32, palette: &[f32], metrics: &[u8]) -> bool {
+    let pf: Vec<Vec<f32>> = pool.iter().map(|v| to_f32(v, scale)).collect();
+    let n = pf.len();
+    let all: Vec<&Vec<f32>> = pf.iter().chain(inexact.iter()).collect();
+    let ex = |i: usize| i < n;
+    // similarity path
+    for (qi, q) in all.iter().enumerate() {
+        for (ai, a) in all.iter().enumerate() {
+            if q.len() != a.len() {
+                continue;
+            }
             let s = sim_f64(q, a);
-            if thr < 1.0 && (s - thr as f64).abs() < 1e-5 {
-                let exact_zero = thr == 0.0 && pool[qi].iter().zip(&pool[ai]).map(|(x, y)| x * y).sum::<i32>() == 0;
+            let exact2 = ex(qi) && ex(ai);
+            let m2 = if exact2 { 1e-5 } else { 1e-3 };
+            if thr < 1.0 && (s - thr as f64).abs() < m2 {
+                let exact_zero = exact2 && thr == 0.0 && pool[qi].iter().zip(&pool[ai]).map(|(x, y)| x * y).sum::<i32>() == 0;
                 if !exact_zero {
                     return true;
                 }
             }
-            for (bi, b) in pf.iter().enumerate() {
-                if bi <= ai {
+            for (bi, b) in all.iter().enumerate().skip(ai + 1) {
+                if q.len() != b.len() {
                     continue;
                 }
                 let t = sim_f64(q, b);
-                if (s - t).abs() < 1e-5 {
-                    if !(exact_sim_equal(&pool[qi], &pool[ai], &pool[bi]) && sim_f32(q, a) == sim_f32(q, b)) {
+                let exact3 = exact2 && ex(bi);
+                if (s - t).abs() < (if exact3 { 1e-5 } else { 1e-3 }) {
+                    if !(exact3 && exact_sim_equal(&pool[qi], &pool[ai], &pool[bi]) && sim_f32(q, a) == sim_f32(q, b)) {
                         return true;
                     }
                 }
             }
         }
     }
-    // similarity path, off-grid (same-cell) queries: inexact sums, wide margin
-    for q in near {
-        for (ai, a) in pf.iter().enumerate() {
-            let s = sim_f64(q, a);
-            if thr < 1.0 && (s - thr as f64).abs() < 1e-3 {
-                return true;
-            }
-            for b in pf.iter().skip(ai + 1) {
-                if (s - sim_f64(q, b)).abs() < 1e-3 && a != b {
-                    return true;
-                }
-            }
-        }
-    }
-    // boundary invalidation: prefilter and distance comparisons that involve a sqrt
+    // boundary invalidation: cached query q (any vector), inserted x (grid only)
     for &m in metrics {
-        if m == 0 {
-            continue; // Euclidean: the prefilter is sqrt-free and on the grid the sqrt of the exact distance cannot round across w
-        }
-        for q in &pf {
+        for (qi, q) in all.iter().enumerate() {
             for x in &pf {
                 if q.len() != x.len() {
                     continue;
@@ -376,8 +371,21 @@ fn fragile(pool: &[Vec<i32>], near: &[Vec<f32>], thr: f32, palette: &[f32], metr
                     let pd: f64 = q[..p].iter().zip(&x[..p]).map(|(a, b)| *a as f64 * *b as f64).sum();
                     let tq: f64 = q[p..].iter().map(|a| (*a as f64).powi(2)).sum::<f64>().sqrt();
                     let tx: f64 = x[p..].iter().map(|a| (*a as f64).powi(2)).sum::<f64>().sqrt();
-                    if m == 2 {
-                        if p < q.len() && (pd + tq * tx - t).abs() < 1e-5 {
+                    if m == 0 {
+                        // exact for grid queries (sqrt-free prefilter, sqrt cannot round across w on the grid)
+                        if !ex(qi) {
+                            let l2p: f64 = q[..p].iter().zip(&x[..p]).map(|(a, b)| (*a as f64 - *b as f64).powi(2)).sum();
+                            let r2 = (w.max(0.0) as f64).powi(2);
+                            if (l2p - r2).abs() < 1e-3 * r2.max(1.0) || (f64dist(q, x, 0) - w as f64).abs() < 1e-3 {
+                                return true;
+                            }
+                        }
+                    } else if m == 2 {
+                        let mg = if ex(qi) { 1e-5 } else { 1e-3 * (1.0 + pd.abs()) };
+                        if (p < q.len() || !ex(qi)) && (pd + tq * tx - t).abs() < mg {
+                            return true;
+                        }
+                        if !ex(qi) && (f64dist(q, x, 2) - w as f64).abs() < mg {
                             return true;
                         }
                     } else {
@@ -386,8 +394,9 @@ fn fragile(pool: &[Vec<i32>], near: &[Vec<f32>], thr: f32, palette: &[f32], metr
                         if nq == 0.0 || nx == 0.0 || t <= -1.0 {
                             continue;
                         }
+                        let mg = if ex(qi) { 1e-5 } else { 1e-3 };
                         let u = ((pd + tq * tx) / (nq * nx)).clamp(-1.0, 1.0);
-                        if (u - t).abs() < 1e-5 || (f64dist(q, x, 1) - w as f64).abs() < 1e-5 {
+                        if (u - t).abs() < mg || (f64dist(q, x, 1) - w as f64).abs() < mg {
                             return true;
                         }
                     }
@@ -408,6 +417,9 @@ pub fn gen_case(r: &mut Rng, st: &mut GenStats) -> Case {
     let scan = if cap == 12 && r.chance(2, 3) { Some(10) } else { None };
     let dim = if r.chance(1, 6) { r.range(33, 40) as usize } else { r.range(1, 8) as usize };
     let palette_all = [-0.25f32, 0.0, 0.125, 0.25, 0.375, 0.5, 0.75, 1.0, 1.25, 1.5, 2.0];
+    // components well outside [-1, 1): the key no longer saturates there (/repo 6ba2bfe)
+    let scale: i32 = *r.pick(&[1, 1, 8]);
+    let wild_vals = [5.0f32, 3.0, 2.0, 7.0, -4.0, 1e6, -1e6, 100.5, 0.25, 32767.0, 40000.0];
     let mut tries = 0;
     let (pool, near, palette, metrics) = loop {
         let npool = r.range(4, 9) as usize;
@@ -426,26 +438,37 @@ pub fn gen_case(r: &mut Rng, st: &mut GenStats) -> Case {
         // off-grid vectors in the quantisation cell of pool[0] / pool[1] (exact-key hit for a different vector)
         let mut near = vec![];
         for b in pool.iter().take(2) {
-            if b.len() == dim && r.chance(1, 2) {
-                let mut v = to_f32(b);
+            if b.len() == dim && scale == 1 && r.chance(1, 2) {
+                let mut v = to_f32(b, scale);
                 let j = r.below(dim as u64) as usize;
                 v[j] += if r.chance(1, 2) { 1.0 / 131072.0 } else { -1.0 / 131072.0 };
                 near.push(v);
             }
         }
+        // large-component vectors (queries / cached queries only, never the inserted vector)
+        if dim <= 8 && r.chance(1, 2) {
+            if dim == 2 && r.chance(1, 2) {
+                near.push(vec![5.0, 3.0]);
+                near.push(vec![2.0, 7.0]);
+            }
+            for _ in 0..r.range(1, 2) {
+                near.push((0..dim).map(|_| *r.pick(&wild_vals)).collect());
+            }
+        }
         let palette: Vec<f32> = (0..3).map(|_| *r.pick(&palette_all)).collect();
         let metrics: Vec<u8> = if r.chance(1, 2) { vec![r.below(3) as u8] } else { vec![r.below(3) as u8, r.below(3) as u8] };
         tries += 1;
-        if tries > 40 || !fragile(&pool, &near, thr, &palette, &metrics) {
-            if tries > 40 {
-                // give up on sqrt-dependent metrics for this case
+        if tries > 40 {
+            // give up on rounding-dependent ingredients for this case: grid vectors only, Euclidean only
+            if !fragile(&pool, scale, &[], thr, &palette, &[0u8]) || tries > 200 {
                 break (pool, vec![], palette, vec![0u8]);
             }
+        } else if !fragile(&pool, scale, &near, thr, &palette, &metrics) {
             break (pool, near, palette, metrics);
         }
         st.fragile_regenerated += 1;
     };
-    let pf: Vec<Vec<f32>> = pool.iter().map(|v| to_f32(v)).collect();
+    let pf: Vec<Vec<f32>> = pool.iter().map(|v| to_f32(v, scale)).collect();
     let nscope = r.range(1, 3);
     let nops = r.range(6, 40) as usize;
     let mut ops = vec![];
@@ -472,7 +495,8 @@ pub fn gen_case(r: &mut Rng, st: &mut GenStats) -> Case {
                     2 => r.range(0, 4) as usize,
                     _ => rs.len().max(1),
                 };
-                ops.push(Op::Insert { scope, q: r.pick(&pf).clone(), rs, kreq });
+                let q = if !near.is_empty() && r.chance(1, 4) { r.pick(&near).clone() } else { r.pick(&pf).clone() };
+                ops.push(Op::Insert { scope, q, rs, kreq });
             }
             12..=13 => {
                 let rs = gen_rs(r);
@@ -635,6 +659,7 @@ pub fn hash_stream(n: usize, r: &mut Rng) -> (String, Value) {
         0.0, -0.0, 1.0, -1.0, 0.99996948, 0.9999847, 0.99998474, -0.99998474, 1.00001526, -1.00001526, 2.0, 5.0, 3.0, 7.0,
         -7.0, 1e9, -1e9, 0.5 / 32768.0, -0.5 / 32768.0, 1.5 / 32768.0, -1.5 / 32768.0, 2.5 / 32768.0, 0.49 / 32768.0,
         32766.5 / 32768.0, 32767.5 / 32768.0, -32767.5 / 32768.0, -32768.5 / 32768.0, 1e-30, 3.0517578e-5, 0.25, 0.250015,
+        1e6, -1e6, 40000.0, 3.0e38, -3.0e38, 2.0e34, 1.0e34, 1.0384594e34, 1.329228e36, 4.056482e31, 1.0e33,
     ];
     let mut rows = vec![];
     let mut eq_count = 0u64;
@@ -674,11 +699,11 @@ pub fn hash_stream(n: usize, r: &mut Rng) -> (String, Value) {
         HEADER,
         rows.join(";\n  ")
     );
-    (text, json!({"pairs": n, "equal_hash_pairs": eq_count, "equal_hash_pairs_of_different_vectors_outside_unit_box": sat_pairs}))
+    (text, json!({"pairs": n, "equal_hash_pairs": eq_count, "equal_hash_pairs_of_different_vectors_with_a_component_outside_unit_box": sat_pairs}))
 }
 
 // ---------------------------------------------------------------------------------------------
-// saturation probe (candidate finding: quantised key saturates outside the unit box)
+// directed regression probe for the repaired defect C07-quantised-key-saturation: expected a MISS
 // ---------------------------------------------------------------------------------------------
 
 pub fn saturation_probe() -> (String, Value) {
